@@ -530,8 +530,37 @@ def _table_rule(chk, prog, guarded_bits):
     chk.floor(rule, 28)
 
 
+def _assertany_rule(chk, prog):
+    """Every other C18 rule reasons with "after janet_sandbox_assert(M) returns, no bit of M is set in sandbox_flags".
+    That holds only if the assert raises as soon as ANY requested bit is disabled: the raise must be guarded by the bare
+    intersection `M & sandbox_flags` (truthiness), not by a test that all bits are set."""
+    rule = "C18-ASSERTANY"
+    chk.rule(rule, "janet_sandbox_assert raises whenever any of the requested capability bits is disabled")
+    fn = next((f for f in prog.all_funcs() if f.name == "janet_sandbox_assert"), None)
+    if fn is None:
+        raise AnalysisBroken("janet_sandbox_assert not found")
+    chk.analysed(fn)
+    par = fn.params[0]["n"]
+    ifs = [x for x in fn.nodes if x.k == "if"]
+    raises = [x for x in fn.nodes if x.k == "call" and x.callee and prog.is_noreturn(x.callee)]
+    chk.instance(rule)
+    if len(ifs) != 1 or not raises:
+        raise AnalysisBroken("janet_sandbox_assert: expected one guarded raise, found %d conditions / %d raises" % (len(ifs), len(raises)))
+    c = strip_casts(ifs[0].kids[0])
+    ok = (c.k == "bin" and c.op == "&"
+          and sorted("p" if is_ref(strip_casts(k), par) else "f" if strip_casts(k).k == "mem" and strip_casts(k).field == "sandbox_flags" else "?"
+                     for k in c.kids) == ["f", "p"])
+    if ok:
+        chk.ok(rule, "janet_sandbox_assert raises iff (%s & sandbox_flags) != 0" % par)
+    else:
+        chk.violation(rule, fn.tu.name, fn.name, "condition", ifs[0].loc,
+                      "janet_sandbox_assert raises under `%s`, not under the bare intersection `%s & sandbox_flags`: a call that names "
+                      "several capabilities passes while some of them are disabled" % (c.text()[:80], par))
+
+
 def run(chk):
     prog = Program.load("default")
     G, guarded_bits = _guard_rule(chk, prog)
     _monotone_rule(chk, prog, G)
     _table_rule(chk, prog, guarded_bits)
+    _assertany_rule(chk, prog)
